@@ -149,7 +149,9 @@ func (c *Ctx) EvalModel(rule string) *evalModel {
 		s.SchemaSrc = m.schemaSources(c, s.Schema)
 		s.AnnsKind = m.annsKind(c, s.Anns)
 	}
-	sort.SliceStable(m.Sites, func(i, j int) bool { return core.InstrPos(m.Sites[i].siteInstr()) < core.InstrPos(m.Sites[j].siteInstr()) })
+	sort.SliceStable(m.Sites, func(i, j int) bool {
+		return core.InstrPos(m.Sites[i].siteInstr()) < core.InstrPos(m.Sites[j].siteInstr())
+	})
 	evalCache[c.P] = m
 	return m
 }
